@@ -1,7 +1,7 @@
 (** Correspondence + spec search for the policy lab: cache operation sequences (kind 3),
     provider iteration (kind 4), reverse DNS against a stalled resolver (kind 5). *)
 From Coq Require Import List ZArith Bool.
-From TR Require Import Lib.Sx Pol.Cache Pol.PublicIp Run.Eng.
+From TR Require Import Lib.Sx Pol.Cache Pol.PublicIp Run.Eng Generated.Consts.
 Import ListNotations.
 Open Scope Z_scope.
 
@@ -12,7 +12,7 @@ Definition d_cop (s : sx) : option cop :=
   end.
 Definition d_cres (s : sx) : option (option Z * bool) :=
   match s with
-  | L [A ok; A v; A called] => Some (if ok =? 0 then None else Some v, negb (called =? 0))
+  | L [A ok; A v; A called] => Some (if ok =? 0 then None else if ok =? 2 then Some (-1) else Some v, negb (called =? 0))
   | _ => None
   end.
 Definition cres_eqb (a b : option Z * bool) : bool :=
@@ -52,6 +52,17 @@ Definition check_pol (prop : Z) (inp impl : sx) : sx :=
           let cls := 1 + 2 * Z.min 15 (Z.of_nat (length ops)) in
           if (prop =? 18) && negb (cache_spec [] ops res) then verdict V_SPECFAIL cls [18; 2] (L [])
           else if list_eqb cres_eqb (run_cache dflt [] ops) res then verdict V_OK cls [] (L [])
+          else verdict V_DIVERGE cls [] (L [])
+      | _, _ => badcase
+      end
+  | L [A 6; L ops], L res =>
+      (* reverse-DNS lookups through the cache: key = address, lifetime = the constant in the source *)
+      match dec_list d_cop ops, dec_list d_cres res with
+      | Some ops0, Some res =>
+          let ops := map (fun o => mkCop (op_now o) (op_key o) (op_cb o) reversedns_reverseDnsCacheTLL) ops0 in
+          let cls := 4 + 8 * Z.min 15 (Z.of_nat (length ops)) in
+          if (prop =? 18) && negb (cache_spec [] ops res) then verdict V_SPECFAIL cls [18; 2] (L [])
+          else if list_eqb cres_eqb (run_cache 0 [] ops) res then verdict V_OK cls [] (L [])
           else verdict V_DIVERGE cls [] (L [])
       | _, _ => badcase
       end
